@@ -109,22 +109,19 @@ Proof.
     exact (equiv_pre_spec _ _ _ (forallb_In _ _ H p Hp)).
 Qed.
 
-Lemma ks_c2t_present : mem (B "--c2t") all_spellings = true.
-Proof. vm_compute; reflexivity. Qed.
-Lemma ks_c2t_expansion : expansion_of_name (B "--c2t") = Some [B "--icsv"; B "--otsv"].
-Proof. vm_compute; reflexivity. Qed.
-Lemma ks_c2t_prefix_differs : equiv_pre [B "--ofs"; B ";"] [B "--c2t"] [B "--icsv"; B "--otsv"] = false.
-Proof. vm_compute; reflexivity. Qed.
+(* full strength: no spelling is excluded *)
+Lemma keystroke_savers_prefix :
+  forall s e p, In s all_spellings -> expansion_of_name s = Some e -> In p ctx_prefixes ->
+  equivalent_in_context (p ++ [s]) (p ++ e) [].
+Proof. intros s e p Hs He Hp. apply keystroke_savers_prefix_partial; auto. Qed.
 
-Lemma keystroke_savers_prefix_refuted :
-  exists s e p, In s all_spellings /\ expansion_of_name s = Some e /\ In p ctx_prefixes /\ equiv_pre p [s] e = false.
-Proof.
-  exists (B "--c2t"), [B "--icsv"; B "--otsv"], [B "--ofs"; B ";"]. split; [|split; [|split]].
-  - apply mem_In. exact ks_c2t_present.
-  - exact ks_c2t_expansion.
-  - right. now left.
-  - exact ks_c2t_prefix_differs.
-Qed.
+(* the 16 spellings of the former finding, under the prefix that used to tell them apart *)
+Lemma ks_former_prefix_sensitive_fixed :
+  forallb (fun s => mem s keystroke_spellings
+                    && match expansion_of_name s with Some e => equiv_pre [B "--ofs"; B ";"] [s] e | None => false end)
+    [ B "--t2t"; B "--c2t"; B "--j2t"; B "--l2t"; B "--m2t"; B "--n2t"; B "--p2t"; B "--x2t"; B "--y2t";
+      B "--n2n"; B "--j2n"; B "--l2n"; B "--m2n"; B "--p2n"; B "--x2n"; B "--y2n" ] = true.
+Proof. vm_compute; reflexivity. Qed.
 
 (* the quantification above is not empty and covers the documented matrix *)
 Lemma ks_section_nonempty : nonemptyb (section_names ks_section) = true.
